@@ -2,15 +2,14 @@ import Driver.Common
 import FranzVerif.Model.C25IO
 /-! Sub-driver C27: histories of cooperative rebalance rounds (groups of lines started by `reset`).
 
-  reset | ok
-  round1 M T | pre # post     a group joins with the given ownership claims; pre/post = the real sticky plan before and
+  reset M T | pre # post      starts a history: a group joins with the given ownership claims; pre/post = the real sticky plan before and
                               after AdjustCooperative (one engine run). model: echo pre # `adjust pre`.
                               Spec: `safeHandoff` on post.
-  next | pre # post           every member revokes what the last adjusted plan did not give it, owns exactly that plan
+  next [id] | pre # post           every member revokes what the last adjusted plan did not give it, owns exactly that plan
                               and rejoins at the next generation (the harness re-encodes real join metadata with the
                               public JoinGroupMetadata). model: echo pre # `adjust pre` for `nextMembers`.
                               Spec: `safeHandoff` and `settled` (nothing withheld, plan valid, nobody loses what it owns).
-  change C | pre # post       as `next`, after membership / subscription changes C = `;`-separated
+  change C [id] | pre # post       as `next`, after membership / subscription changes C = `;`-separated
                               drop:id | subs:id:t+t | join:id:t+t ; Spec: `safeHandoff` only (the group is not stable).
   Encodings as in Driver/C25.lean. -/
 open Driver Model.C25 Model.C25.IO
@@ -49,8 +48,8 @@ def runRound (st : St27) (ms : List Member) (impl : String) (stable : Bool) : St
                else if !validPlan (subsOf ms) n p then "coop-round2-plan-invalid"
                else if !(st.lastPost.all fun x => p.contains x) then "coop-sticky-moves-owned-in-round2"
                else "coop-not-settled"
-    let nt := if stable then !(st.lastPre.isPerm st.lastPost)
-              else ms.any fun m => m.owned.any fun e => e.2.any fun q => !p.contains (m.id, e.1, q)
+    -- non-trivial: at least two members and at least one ownership claim for AdjustCooperative to weigh
+    let nt := ms.length ≥ 2 && ms.any fun m => m.owned.any fun e => !e.2.isEmpty
     ({ st with ms := ms, lastPre := p, lastPost := a, stableRounds := if stable then st.stableRounds + 1 else 1 },
      s!"{pre} # {showPlan ids (adjust ms p)} | {verdict (wf && hyp && safe && conv) key} | {boolStr nt}")
   | _ => (st, "bad-impl | 0:coop-malformed | 0")
@@ -58,13 +57,12 @@ def runRound (st : St27) (ms : List Member) (impl : String) (stable : Bool) : St
 def step27 (st : St27) (line : String) : St27 × String :=
   let (op, impl) := splitBar line
   match toks op with
-  | ["reset"] => ({}, "ok | - | 0")
-  | ["round1", m, t] =>
+  | ["reset", m, t] =>
     let ms := dedupMembers (parseMembers m)
     runRound { ms := ms, topics := (parseTopics t).1 } ms impl false
-  | ["next"] =>
+  | "next" :: _ =>
     runRound st (nextMembers st.ms st.lastPost (nextGen st.ms)) impl true
-  | ["change", c] =>
+  | "change" :: c :: _ =>
     let ms := (splitNE c ";").foldl applyChange (nextMembers st.ms st.lastPost (nextGen st.ms))
     runRound st ms impl false
   | _ => (st, "bad-op | - | 0")
